@@ -20,7 +20,7 @@ Proof. unfold ST_DISCONNECTED_BROKEN_CONN, ST_NETWORK_CONN_ESTABLISHED, ST_ACTIV
 
 (* ------------------------------------------------------------------ vocabulary *)
 Definition live (s : st) : Prop := s_conn s = true /\ s_state s = ST_ACTIVE.
-Definition dead_st (hb : Z) : st := mkSt ST_DISCONNECTED_BROKEN_CONN hb 0 None false.
+Definition dead_st (hb : Z) : st := mkSt ST_DISCONNECTED_BROKEN_CONN hb 0 None false 0.
 
 Lemma div1000 : forall t, 0 <= t - t / 1000 * 1000 < 1000.
 Proof. intro t. pose proof (Z.div_mod t 1000). pose proof (Z.mod_pos_bound t 1000). lia. Qed.
@@ -47,7 +47,7 @@ Definition tick_spec (now : Z) (s : st) : st * list out :=
         let n := now / 1000 in
         if negb (n =? 0) && (2 * hb * 1000 <? now - n * 1000)
         then (dead_st hb, [testreq_frame n; ODisconnect])
-        else (mkSt ST_ACTIVE hb now (Some n) true, [testreq_frame n])
+        else (mkSt ST_ACTIVE hb now (Some n) true (s_gap s), [testreq_frame n])
       else (s, [])
   | Some n =>
       if 2 * hb * 1000 <? now - n * 1000 then (dead_st hb, [ODisconnect])
@@ -56,7 +56,7 @@ Definition tick_spec (now : Z) (s : st) : st * list out :=
 
 Lemma tick_live : forall now s, live s -> 0 <= s_hb s -> s_id s <> Some 0 -> tick now s = tick_spec now s.
 Proof.
-  intros now [stt hb mlt id conn] [Hc Hs] Hhb Hid. cbn in Hc, Hs, Hhb, Hid. subst conn stt.
+  intros now [stt hb mlt id conn g] [Hc Hs] Hhb Hid. cbn in Hc, Hs, Hhb, Hid. subst conn stt.
   unfold tick, tick_spec. cbn [s_conn s_state s_hb s_mlt s_id negb].
   rewrite thr_probe_eq, Z.eqb_refl. cbn [andb].
   destruct id as [n|].
@@ -84,26 +84,26 @@ Qed.
 
 (* ------------------------------------------------------------------ single iterations *)
 Definition idle_at (s : st) (hb t0 : Z) : Prop :=
-  live s /\ s_hb s = hb /\ s_id s = None /\ s_mlt s = t0.
+  live s /\ s_hb s = hb /\ s_id s = None /\ s_mlt s = t0 /\ s_gap s = 0.
 
 Lemma tick_idle : forall now s hb t0,
   idle_at s hb t0 -> 0 <= hb -> now - t0 <= (hb - 1) * 1000 -> tick now s = (s, []).
 Proof.
-  intros now s hb t0 (L & Hh & Hi & Hm) Hhb Hle.
+  intros now s hb t0 (L & Hh & Hi & Hm & Hg) Hhb Hle.
   rewrite tick_live; [| assumption | lia | congruence].
   unfold tick_spec. rewrite Hi, Hh, Hm.
   replace ((hb - 1) * 1000 <? now - t0) with false by (symmetry; apply Z.ltb_ge; lia). reflexivity.
 Qed.
 
-Definition probing_st (hb now : Z) : st := mkSt ST_ACTIVE hb now (Some (now / 1000)) true.
+Definition probing_st (hb now : Z) : st := mkSt ST_ACTIVE hb now (Some (now / 1000)) true 0.
 
 Lemma tick_probe : forall now s hb t0,
   idle_at s hb t0 -> 1 <= hb -> 1000 <= now -> (hb - 1) * 1000 < now - t0 ->
   tick now s = (probing_st hb now, [testreq_frame (now / 1000)]).
 Proof.
-  intros now s hb t0 (L & Hh & Hi & Hm) Hhb Hnow Hgt.
+  intros now s hb t0 (L & Hh & Hi & Hm & Hg) Hhb Hnow Hgt.
   rewrite tick_live; [| assumption | lia | congruence].
-  unfold tick_spec. rewrite Hi, Hh, Hm.
+  unfold tick_spec. rewrite Hi, Hh, Hm, Hg.
   replace ((hb - 1) * 1000 <? now - t0) with true by (symmetry; apply Z.ltb_lt; lia).
   pose proof (div1000 now).
   replace (2 * hb * 1000 <? now - now / 1000 * 1000) with false by (symmetry; apply Z.ltb_ge; lia).
@@ -266,30 +266,53 @@ Definition writes_testreq (r : row) : bool := existsb is_testreq (r_out r).
 Definition is_tick (e : ev) : bool := match e with Tick _ => true | _ => false end.
 Definition is_raw (e : ev) : bool := match e with AppRaw _ _ => true | _ => false end.
 
+Ltac crush_one :=
+  match goal with
+  | |- context [match ?x with _ => _ end] => is_var x; destruct x eqn:?
+  | |- context [if ?c then _ else _] =>
+      lazymatch c with
+      | context [match _ with _ => _ end] => fail
+      | _ => first [ let v := eval vm_compute in c in
+                     lazymatch v with
+                     | true => change c with true
+                     | false => change c with false
+                     end
+                   | destruct c eqn:? ]
+      end
+  end.
+
+Ltac bool_split :=
+  repeat match goal with
+         | H : _ && _ = true |- _ => apply andb_true_iff in H; destruct H
+         | H : _ && _ = false |- _ => apply andb_false_iff in H; destruct H
+         | H : _ || _ = true |- _ => apply orb_true_iff in H; destruct H
+         | H : _ || _ = false |- _ => apply orb_false_iff in H; destruct H
+         | H : negb _ = true |- _ => apply negb_true_iff in H
+         | H : negb _ = false |- _ => apply negb_false_iff in H
+         end.
+
+Ltac unfold_states :=
+  unfold ST_ACTIVE, ST_RESENDREQ_AWAITING, ST_DISCONNECTED_BROKEN_CONN, ST_NETWORK_CONN_ESTABLISHED in *.
+
+Ltac crush_cbn :=
+  cbn [s_state s_hb s_mlt s_id s_conn s_gap fst snd negb andb orb app existsb is_testreq] in *.
+
 Ltac step_crush :=
-  unfold step, tick, recv, app_probe, app_raw, disconnect, set_mlt, set_id, truthy, testreq_frame in *;
-  cbn [s_state s_hb s_mlt s_id s_conn fst snd negb andb orb app existsb is_testreq] in *;
-  repeat (match goal with
-          | |- context [match ?x with _ => _ end] => is_var x; destruct x eqn:?
-          | |- context [if ?c then _ else _] =>
-              lazymatch c with
-              | context [match _ with _ => _ end] => fail
-              | _ => destruct c eqn:?
-              end
-          end;
-          cbn [s_state s_hb s_mlt s_id s_conn fst snd negb andb orb app existsb is_testreq] in *).
+  unfold step, tick, recv, app_probe, app_raw, check_gap, dispatch, finalize, session_up, disconnect,
+         set_mlt, set_id, set_state, truthy, testreq_frame, thr, thr_probe, thr_dead, thr_treq in *;
+  crush_cbn; repeat (crush_one; crush_cbn).
 
 (* while a probe is outstanding no further TestRequest is written by the watchdog or send_test_req;
-   the id survives unless a Heartbeat echoing it arrives or the connection is dropped *)
+   the id survives unless a Heartbeat echoing it arrives (in sequence or behind a gap) or the connection is dropped *)
 Lemma pending_step : forall s e n s' o,
   s_id s = Some n -> n <> 0 -> is_raw e = false -> step s e = (s', o) ->
   existsb is_testreq o = false /\
   (s_id s' = Some n \/ s_conn s' = false \/
-   exists ta v, e = Recv ta (MHeartbeat (Some v)) /\ parse_id v = n).
+   exists ta da v, e = Recv ta da (MHeartbeat (Some v)) /\ parse_id v = n).
 Proof.
-  intros [stt hb mlt id conn] e n s' o Hi Hn Hr E. cbn in Hi. subst id.
+  intros [stt hb mlt id conn g] e n s' o Hi Hn Hr E. cbn in Hi. subst id.
   apply Z.eqb_neq in Hn.
-  destruct e as [t | t m | t | t rid]; [| destruct m as [rid | rid |] | | discriminate Hr];
+  destruct e as [t | t d m | t | t rid]; [| destruct m as [rid | rid | | nw] | | discriminate Hr];
     revert E; step_crush; intro E; inversion E; subst; cbn; try rewrite Hn in *; try discriminate;
     split; try reflexivity; auto.
   all: try (right; right; bool_lia; eauto).
@@ -299,8 +322,8 @@ Qed.
 Lemma dead_step : forall s e s' o,
   s_conn s = false -> step s e = (s', o) -> existsb is_testreq o = false /\ s_conn s' = false.
 Proof.
-  intros [stt hb mlt id conn] e s' o Hc E. cbn in Hc. subst conn.
-  destruct e as [t | t m | t | t rid]; revert E; step_crush; intro E; inversion E; subst; cbn; auto.
+  intros [stt hb mlt id conn g] e s' o Hc E. cbn in Hc. subst conn.
+  destruct e as [t | t d m | t | t rid]; revert E; step_crush; intro E; inversion E; subst; cbn; auto.
 Qed.
 
 (* a TestRequest written by the watchdog or by send_test_req() carries int(time) and becomes the outstanding id *)
@@ -308,29 +331,36 @@ Lemma probe_step : forall s e s' o,
   is_raw e = false -> step s e = (s', o) -> existsb is_testreq o = true ->
   (s_id s' = Some (ev_time e / 1000) \/ s_conn s' = false) /\ (s_id s = None \/ s_id s = Some 0).
 Proof.
-  intros [stt hb mlt id conn] e s' o Hr E.
-  destruct e as [t | t m | t | t rid]; [| destruct m as [rid | rid |] | | discriminate Hr];
+  intros [stt hb mlt id conn g] e s' o Hr E.
+  destruct e as [t | t d m | t | t rid]; [| destruct m as [rid | rid | | nw] | | discriminate Hr];
     revert E; step_crush; intro E; inversion E; subst; cbn; intro W; try discriminate W; bool_lia; subst; auto.
 Qed.
 
 Lemma id_nonzero_step : forall s e s' o,
   s_id s <> Some 0 -> 1000 <= ev_time e -> step s e = (s', o) -> s_id s' <> Some 0.
 Proof.
-  intros [stt hb mlt id conn] e s' o Hi Ht E. cbn in Hi.
+  intros [stt hb mlt id conn g] e s' o Hi Ht E. cbn in Hi.
   pose proof (div1000_pos (ev_time e) Ht) as Hd.
-  destruct e as [t | t m | t | t rid]; [| destruct m as [rid | rid |] | |];
+  destruct e as [t | t d m | t | t rid]; [| destruct m as [rid | rid | | nw] | |];
     revert E; step_crush; intro E; inversion E; subst; cbn in *; try assumption; try discriminate;
     try (intro X; inversion X; lia).
 Qed.
 
-(* hb is never changed; a connected session stays ACTIVE (the state number changes only on disconnect) *)
-Definition ok (hb : Z) (s : st) : Prop := s_hb s = hb /\ (s_conn s = true -> s_state s = ST_ACTIVE).
+(* hb is never changed; a connected session is ACTIVE or awaiting a resend (other states are not entered by
+   the modelled events) *)
+Definition ok (hb : Z) (s : st) : Prop := s_hb s = hb /\ (s_conn s = true -> session_up s = true).
 
 Lemma ok_step : forall hb s e s' o, ok hb s -> step s e = (s', o) -> ok hb s'.
 Proof.
-  intros hb [stt h mlt id conn] e s' o [Hh Hs] E. cbn in Hh, Hs. subst h.
-  destruct e as [t | t m | t | t rid]; [| destruct m as [rid | rid |] | |];
-    revert E; step_crush; intro E; inversion E; subst; split; cbn; auto; try discriminate.
+  intros hb [stt h mlt id conn g] e s' o [Hh Hs] E. cbn in Hh, Hs. subst h. unfold session_up in Hs. cbn in Hs.
+  destruct e as [t | t d m | t | t rid]; [| destruct m as [rid | rid | | nw] | |];
+    revert E; step_crush; intro E; inversion E; subst; split; cbn; auto; try discriminate;
+    unfold session_up; cbn; intros; try reflexivity; try (rewrite Z.eqb_refl; reflexivity);
+    try (rewrite Z.eqb_refl, orb_true_r; reflexivity); auto.
+  all: try (apply Hs; assumption).
+  all: repeat match goal with H : (_ =? _) = _ |- _ => rewrite H in * end; cbn in *;
+       auto using orb_true_r; try (apply Hs; assumption).
+  all: try (specialize (Hs H); discriminate Hs).
 Qed.
 
 Lemma conn_step : forall s e s' o, step s e = (s', o) -> s_conn s' = true -> s_conn s = true.
@@ -350,43 +380,44 @@ Lemma id_origin_step : forall hb s e s' o n,
   ok hb s -> step s e = (s', o) -> s_conn s' = true -> s_id s' = Some n ->
   s_id s = Some n \/ exists t, probe_row (mkRow e o s') = Some t /\ n = t / 1000.
 Proof.
-  intros hb0 [stt hb mlt id conn] e s' o n [_ Hs] E. cbn in Hs.
-  destruct e as [t | t m | t | t rid]; [| destruct m as [rid | rid |] | |];
+  intros hb0 [stt hb mlt id conn g] e s' o n [_ Hs] E. unfold session_up in Hs. cbn in Hs.
+  destruct e as [t | t d m | t | t rid]; [| destruct m as [rid | rid | | nw] | |];
     revert E; step_crush; intro E; inversion E; subst; cbn; intros C I; try discriminate; auto;
     try (inversion I; subst; right; eexists; split; [reflexivity|reflexivity]).
-  all: subst conn; specialize (Hs eq_refl); subst stt; cbn in *; discriminate.
+  all: subst conn; specialize (Hs eq_refl); bool_lia;
+       repeat match goal with H : _ || _ = _ |- _ => first [apply orb_true_iff in H | apply orb_false_iff in H] end;
+       bool_lia; unfold ST_ACTIVE, ST_RESENDREQ_AWAITING, ST_NETWORK_CONN_ESTABLISHED in *; intuition lia.
 Qed.
 
-(* a Heartbeat echoing the outstanding id clears it *)
-Lemma answer_clears : forall s ta v s' o,
-  live s -> s_id s = Some (parse_id v) -> step s (Recv ta (MHeartbeat (Some v))) = (s', o) -> s_id s' = None.
+(* a Heartbeat echoing the outstanding id clears it - in sequence or BEHIND A GAP *)
+Lemma answer_clears : forall s ta d v s' o,
+  s_conn s = true -> session_up s = true -> 0 <= d -> s_id s = Some (parse_id v) ->
+  step s (Recv ta d (MHeartbeat (Some v))) = (s', o) -> s_id s' = None.
 Proof.
-  intros [stt hb mlt id conn] ta v s' o [Hc Hs] Hi. cbn in Hc, Hs, Hi. subst.
-  cbn [step]. unfold recv. cbn [s_conn s_state s_id negb orb].
-  rewrite Z.eqb_refl.
-  replace (ST_ACTIVE <=? ST_DISCONNECTED_BROKEN_CONN) with false by reflexivity.
-  rewrite Z.eqb_refl. cbn [negb set_id set_mlt s_state s_hb s_mlt s_id s_conn].
-  intro E; inversion E; reflexivity.
+  intros [stt hb mlt id conn g] ta d v s' o Hc Hs Hd Hi. unfold session_up in Hs. cbn in Hc, Hs, Hi. subst.
+  intro E. revert E. step_crush; intro E; inversion E; subst; cbn; try reflexivity;
+    bool_lia; try lia; try congruence;
+    try (rewrite Hs in *; discriminate).
+  all: apply orb_true_iff in Hs; destruct Hs as [Hs | Hs]; bool_lia;
+       unfold ST_ACTIVE, ST_RESENDREQ_AWAITING, ST_DISCONNECTED_BROKEN_CONN in *; lia.
 Qed.
 
-(* when the watchdog drops an ACTIVE session, a probe was outstanding and its deadline has passed *)
+(* when the watchdog drops a logged-on session, either a probe was outstanding and its deadline has passed, or a
+   resend was awaited and the last-message clock is more than 2 hb s old *)
 Lemma wd_step : forall hb s t s' o,
   1 <= hb -> ok hb s -> s_id s <> Some 0 -> 1000 <= t -> tick t s = (s', o) -> In ODisconnect o ->
-  exists n, s_id s = Some n /\ (n + 2 * hb) * 1000 < t.
+  (exists n, s_id s = Some n /\ (n + 2 * hb) * 1000 < t)
+  \/ (s_state s = ST_RESENDREQ_AWAITING /\ 2 * hb * 1000 < t - s_mlt s).
 Proof.
-  intros hb s t s' o Hhb [Hh Hs] Hi Ht E D.
-  destruct (s_conn s) eqn:C.
-  - rewrite tick_live in E; [| split; auto | lia | assumption].
-    unfold tick_spec in E. rewrite Hh in E.
-    destruct (s_id s) as [n|] eqn:I.
-    + destruct (2 * hb * 1000 <? t - n * 1000) eqn:T.
-      * exists n. split; [reflexivity|]. bool_lia. lia.
-      * inversion E; subst o. destruct D.
-    + pose proof (div1000 t).
-      replace (2 * hb * 1000 <? t - t / 1000 * 1000) with false in E by (symmetry; apply Z.ltb_ge; lia).
-      rewrite andb_false_r in E.
-      destruct ((hb - 1) * 1000 <? t - s_mlt s); inversion E; subst o; cbn in D; intuition discriminate.
-  - unfold tick in E. rewrite C in E. cbn in E. inversion E; subst o. destruct D.
+  intros hb [stt h mlt id conn g] t s' o Hhb [Hh Hs] Hi Ht E D. unfold session_up in Hs. cbn in Hh, Hs, Hi. subst h.
+  pose proof (div1000 t) as Hdiv.
+  revert E. step_crush; intro E; inversion E; subst; cbn in D;
+    try (exfalso; intuition discriminate).
+  all: bool_split; bool_lia; subst; try (specialize (Hs eq_refl)); bool_split; bool_lia; unfold_states.
+  all: first [ left; eexists; split; [reflexivity | lia]
+             | right; split; [assumption | lia]
+             | exfalso; lia
+             | exfalso; congruence ].
 Qed.
 
 (* ------------------------------------------------------------------ C12_live_peer *)
@@ -398,9 +429,10 @@ Fixpoint sorted (evs : list ev) : Prop :=
 
 Definition wd_disconnect (r : row) : Prop := is_tick (r_ev r) = true /\ In ODisconnect (r_out r).
 
-(* a Heartbeat echoing id n that arrives no later than n + 2 hb seconds *)
+(* a Heartbeat echoing id n that arrives no later than n + 2 hb seconds - whatever its sequence number *)
 Definition is_answer (hb n : Z) (r : row) : Prop :=
-  exists ta v, r_ev r = Recv ta (MHeartbeat (Some v)) /\ parse_id v = n /\ ta <= (n + 2 * hb) * 1000.
+  exists ta da v, r_ev r = Recv ta da (MHeartbeat (Some v)) /\ 0 <= da /\ parse_id v = n
+                  /\ ta <= (n + 2 * hb) * 1000.
 
 (* every TestRequest written by the watchdog (or send_test_req) at time t, i.e. with id t/1000, is answered later in the run *)
 Fixpoint answers (hb : Z) (tr : list row) : Prop :=
@@ -411,6 +443,18 @@ Fixpoint answers (hb : Z) (tr : list row) : Prop :=
       /\ answers hb rest
   end.
 
+(* while a resend is awaited no watchdog iteration finds the last-message clock older than 2 hb s
+   (the gap is closed, or in-sequence traffic resumes, in time) *)
+Fixpoint gap_ok (hb : Z) (s : st) (evs : list ev) : Prop :=
+  match evs with
+  | [] => True
+  | e :: r =>
+      match e with
+      | Tick t => s_conn s = true -> s_state s = ST_RESENDREQ_AWAITING -> t - s_mlt s <= 2 * hb * 1000
+      | _ => True
+      end /\ gap_ok hb (fst (step s e)) r
+  end.
+
 Definition pending_ok (hb : Z) (s : st) (tr : list row) : Prop :=
   s_conn s = true -> forall n, s_id s = Some n -> exists r, In r tr /\ is_answer hb n r.
 
@@ -419,12 +463,12 @@ Proof. intros s evs r H. rewrite <- (trace_ev evs s). apply in_map. assumption. 
 
 Lemma answering_no_wd : forall hb evs s,
   1 <= hb -> ok hb s -> s_id s <> Some 0 -> sorted evs -> Forall (fun e => 1000 <= ev_time e) evs ->
-  answers hb (trace s evs) -> pending_ok hb s (trace s evs) ->
+  gap_ok hb s evs -> answers hb (trace s evs) -> pending_ok hb s (trace s evs) ->
   Forall (fun r => ~ wd_disconnect r) (trace s evs).
 Proof.
-  intros hb evs. induction evs as [|e evs IH]; intros s Hhb Hok Hid Hso Hti Han Hpe; [constructor|].
-  cbn [trace] in *. destruct (step s e) as [s' o] eqn:E.
-  destruct Hso as [Hhd Hso]. inversion Hti as [|? ? Ht Hti']; subst.
+  intros hb evs. induction evs as [|e evs IH]; intros s Hhb Hok Hid Hso Hti Hgap Han Hpe; [constructor|].
+  cbn [trace] in *. cbn [gap_ok] in Hgap. destruct (step s e) as [s' o] eqn:E. cbn [fst] in Hgap.
+  destruct Hso as [Hhd Hso]. inversion Hti as [|? ? Ht Hti']; subst. destruct Hgap as [Hg0 Hgap].
   cbn [answers] in Han. destruct Han as [Hprobe Han].
   pose proof (ok_step hb s e s' o Hok E) as Hok'.
   pose proof (id_nonzero_step s e s' o Hid Ht E) as Hid'.
@@ -432,13 +476,14 @@ Proof.
   - (* the head row is not a watchdog disconnect *)
     intros [Htick Hdisc]. cbn [r_ev r_out] in Htick, Hdisc.
     destruct e as [t | | |]; try discriminate Htick. cbn [step] in E. cbn [ev_time] in Ht.
-    destruct (wd_step hb s t s' o Hhb Hok Hid Ht E Hdisc) as [n [Hn Hlate]].
     assert (Hc : s_conn s = true).
     { destruct (s_conn s) eqn:C; [reflexivity|]. unfold tick in E. rewrite C in E. cbn in E.
       inversion E; subst o. destruct Hdisc. }
-    destruct (Hpe Hc n Hn) as [r [[Hr | Hr] (ta & v & Hev & Hpar & Hdl)]].
-    + subst r. cbn [r_ev] in Hev. discriminate Hev.
-    + apply in_trace_ev in Hr. specialize (Hhd _ Hr). rewrite Hev in Hhd. cbn [ev_time] in Hhd. lia.
+    destruct (wd_step hb s t s' o Hhb Hok Hid Ht E Hdisc) as [[n [Hn Hlate]] | [Haw Hold]].
+    + destruct (Hpe Hc n Hn) as [r [[Hr | Hr] (ta & da & v & Hev & Hda & Hpar & Hdl)]].
+      * subst r. cbn [r_ev] in Hev. discriminate Hev.
+      * apply in_trace_ev in Hr. specialize (Hhd _ Hr). rewrite Hev in Hhd. cbn [ev_time] in Hhd. lia.
+    + specialize (Hg0 Hc Haw). lia.
   - apply IH; try assumption.
     (* the invariant for the remaining run *)
     intros Hc' n Hn.
@@ -446,23 +491,67 @@ Proof.
     destruct (id_origin_step hb s e s' o n Hok E Hc' Hn) as [Hold | [t [Hp Hnt]]].
     + destruct (Hpe Hc n Hold) as [r [[Hr | Hr] Hans]].
       * (* the answer would be this very step: then the id is cleared *)
-        exfalso. subst r. destruct Hans as (ta & v & Hev & Hpar & _). cbn [r_ev] in Hev. subst e.
-        assert (L : live s) by (split; [assumption | apply Hok; assumption]).
+        exfalso. subst r. destruct Hans as (ta & da & v & Hev & Hda & Hpar & _). cbn [r_ev] in Hev. subst e.
         rewrite <- Hpar in Hold.
-        pose proof (answer_clears s ta v s' o L Hold E). congruence.
+        pose proof (answer_clears s ta da v s' o Hc (proj2 Hok Hc) Hda Hold E). congruence.
       * exists r. split; assumption.
     + subst n. apply Hprobe. assumption.
 Qed.
 
-(* valid traffic never pauses longer than G before an iteration: `fed G last evs`, last = time of the last valid message *)
+(* scenarios whose inbound traffic is all in sequence (and contains no SequenceReset) *)
+Definition plain (m : msg) : bool := match m with MGapFill _ => false | _ => true end.
+Definition inseq_ev (e : ev) : Prop :=
+  match e with Recv _ d m => d = 0 /\ plain m = true | _ => True end.
+Definition inseq_evb (e : ev) : bool :=
+  match e with Recv _ d m => (d =? 0) && plain m | _ => true end.
+Lemma inseq_evb_ok : forall e, inseq_evb e = true -> inseq_ev e.
+Proof.
+  intros [t | t d m | t | t rid] H; cbn in *; auto.
+  apply andb_true_iff in H. destruct H as [A B]. split; [apply Z.eqb_eq; assumption | assumption].
+Qed.
+Definition okA (hb : Z) (s : st) : Prop := s_hb s = hb /\ (s_conn s = true -> s_state s = ST_ACTIVE).
+
+Lemma okA_step : forall hb s e s' o, okA hb s -> inseq_ev e -> step s e = (s', o) -> okA hb s'.
+Proof.
+  intros hb [stt h mlt id conn g] e s' o [Hh Hs] Hin E. cbn in Hh, Hs. subst h.
+  destruct e as [t | t d m | t | t rid]; [| destruct Hin as [Hd Hp]; subst d; destruct m as [rid | rid | | nw]; [| | | discriminate Hp] | |];
+    revert E; step_crush; intro E; inversion E; subst; split; cbn; auto; try discriminate.
+  all: intro Hc; specialize (Hs Hc); bool_lia; subst;
+       unfold ST_ACTIVE, ST_RESENDREQ_AWAITING in *; try lia; try reflexivity.
+Qed.
+
+Lemma okA_ok : forall hb s, okA hb s -> ok hb s.
+Proof.
+  intros hb s [Hh Hs]. split; [assumption|]. intro Hc. unfold session_up. rewrite (Hs Hc), Z.eqb_refl. reflexivity.
+Qed.
+
+Lemma gap_ok_inseq : forall hb evs s, okA hb s -> Forall inseq_ev evs -> gap_ok hb s evs.
+Proof.
+  intros hb evs. induction evs as [|e evs IH]; intros s Hok Hin; [exact I|].
+  inversion Hin as [|? ? He Hin']; subst. cbn [gap_ok]. split.
+  - destruct e; try exact I. intros Hc Ha. destruct Hok as [_ Hs]. rewrite (Hs Hc) in Ha. discriminate Ha.
+  - destruct (step s e) as [s' o] eqn:E. cbn [fst]. apply IH; [eapply okA_step; eassumption | assumption].
+Qed.
+
+(* valid in-sequence traffic never pauses longer than G before an iteration: `fed G last evs`, last = time of the
+   last in-sequence message *)
 Fixpoint fed (G last : Z) (evs : list ev) : Prop :=
   match evs with
   | [] => True
   | Tick t :: r => t - last <= G /\ fed G last r
-  | Recv t _ :: r => fed G t r
+  | Recv t d m :: r => d = 0 /\ plain m = true /\ fed G t r
   | AppProbe _ :: _ => False
   | AppRaw _ _ :: r => fed G last r
   end.
+
+Lemma recv_idle : forall t m s hb t0, idle_at s hb t0 -> plain m = true ->
+  exists o, recv t 0 m s = (set_mlt s t, o) /\ ~ In ODisconnect o /\ existsb is_testreq o = false.
+Proof.
+  intros t m s hb t0 ([Hc Hs] & Hh & Hi & Hm & Hg) Hp.
+  destruct s as [stt h mlt id conn g]. cbn in Hc, Hs, Hh, Hi, Hm, Hg. subst.
+  destruct m as [r | r | | nw]; [destruct r | | | discriminate Hp];
+    eexists; (split; [reflexivity|]); cbn; intuition discriminate.
+Qed.
 
 Lemma fed_quiet : forall hb G evs s t0,
   0 <= hb -> G <= (hb - 1) * 1000 -> idle_at s hb t0 -> fed G t0 evs ->
@@ -470,47 +559,51 @@ Lemma fed_quiet : forall hb G evs s t0,
   /\ Forall (fun r => ~ In ODisconnect (r_out r) /\ writes_testreq r = false) (trace s evs).
 Proof.
   intros hb G evs. induction evs as [|e evs IH]; intros s t0 Hhb HG I F; [split; constructor|].
-  destruct e as [t | t m | t | t rid]; cbn [fed] in F.
+  destruct e as [t | t d m | t | t rid]; cbn [fed] in F.
   - destruct F as [Fl F]. cbn [trace step]. rewrite (tick_idle t s hb t0 I Hhb) by lia.
     destruct (IH s t0 Hhb HG I F) as [A B].
     split; constructor; auto; cbn; try (split; [tauto | reflexivity]).
-  - cbn [trace step].
-    assert (E : exists o, recv t m s = (set_mlt s t, o) /\ ~ In ODisconnect o /\ existsb is_testreq o = false).
-    { destruct I as ([Hc Hs] & Hh & Hi & Hm). destruct s as [stt h mlt id conn]. cbn in Hc, Hs, Hh, Hi, Hm. subst.
-      unfold recv. cbn [s_conn s_state s_id negb orb].
-      replace (ST_ACTIVE <=? ST_DISCONNECTED_BROKEN_CONN) with false by reflexivity.
-      rewrite Z.eqb_refl. cbn [negb].
-      destruct m as [r | r |]; [destruct r | |]; eexists; (split; [reflexivity|]); cbn; intuition discriminate. }
-    destruct E as [o [E [ND NT]]]. rewrite E.
+  - destruct F as (Hd & Hp & F). subst d. cbn [trace step].
+    destruct (recv_idle t m s hb t0 I Hp) as [o [E [ND NT]]]. rewrite E.
     assert (I' : idle_at (set_mlt s t) hb t).
-    { destruct I as (L & Hh & Hi & Hm). repeat split; try apply L; assumption. }
+    { destruct I as (L & Hh & Hi & Hm & Hg). repeat split; try apply L; assumption. }
     destruct (IH (set_mlt s t) t Hhb HG I' F) as [A B].
     split; constructor; auto; cbn; try discriminate.
   - destruct F.
   - cbn [trace step].
     assert (E : app_raw t rid s = (s, [ORaise])).
-    { destruct I as ([Hc Hs] & Hh & Hi & Hm). destruct s as [stt h mlt id conn]. cbn in Hc, Hs, Hh, Hi, Hm. subst.
-      unfold app_raw. cbn [s_conn s_state s_id negb orb].
-      replace (ST_ACTIVE <? ST_NETWORK_CONN_ESTABLISHED) with false by reflexivity.
-      rewrite Z.eqb_refl. reflexivity. }
+    { destruct I as ([Hc Hs] & Hh & Hi & Hm & Hg). destruct s as [stt h mlt id conn g]. cbn in Hc, Hs, Hh, Hi, Hm, Hg. subst.
+      reflexivity. }
     rewrite E. destruct (IH s t0 Hhb HG I F) as [A B].
     split; constructor; auto; cbn; try discriminate.
     split; [intuition discriminate | reflexivity].
 Qed.
 
-Lemma live_peer : forall hb evs s t0,
-  1 <= hb -> idle_at s hb t0 -> Forall (fun e => 1000 <= ev_time e) evs ->
-  (fed ((hb - 1) * 1000) t0 evs \/ (sorted evs /\ answers hb (trace s evs))) ->
+(* the general form: out-of-sequence traffic allowed, answers count wherever they are numbered *)
+Lemma live_peer_gaps : forall hb evs s,
+  1 <= hb -> ok hb s -> s_id s = None -> sorted evs -> Forall (fun e => 1000 <= ev_time e) evs ->
+  gap_ok hb s evs -> answers hb (trace s evs) ->
   Forall (fun r => ~ wd_disconnect r) (trace s evs).
 Proof.
-  intros hb evs s t0 Hhb I Hti [F | [So An]].
+  intros hb evs s Hhb Hok Hid So Hti Hg An.
+  apply (answering_no_wd hb evs s); try assumption.
+  - congruence.
+  - intros _ n Hn. congruence.
+Qed.
+
+Lemma live_peer : forall hb evs s t0,
+  1 <= hb -> idle_at s hb t0 -> Forall (fun e => 1000 <= ev_time e) evs ->
+  (fed ((hb - 1) * 1000) t0 evs \/ (sorted evs /\ Forall inseq_ev evs /\ answers hb (trace s evs))) ->
+  Forall (fun r => ~ wd_disconnect r) (trace s evs).
+Proof.
+  intros hb evs s t0 Hhb I Hti [F | (So & Hin & An)].
   - destruct (fed_quiet hb ((hb - 1) * 1000) evs s t0) as [_ B]; [lia | lia | assumption | assumption |].
     eapply Forall_impl; [| exact B]. intros r [ND _] [_ D]. auto.
-  - destruct I as ([Hc Hs] & Hh & Hi & Hm).
-    apply (answering_no_wd hb evs s); try assumption.
-    + split; auto.
-    + congruence.
-    + intros _ n Hn. congruence.
+  - destruct I as ([Hc Hs] & Hh & Hi & Hm & Hg).
+    assert (HA : okA hb s) by (split; auto).
+    apply (live_peer_gaps hb evs s); try assumption.
+    + apply okA_ok; assumption.
+    + apply gap_ok_inseq; assumption.
 Qed.
 
 (* ------------------------------------------------------------------ C12_single_outstanding *)
@@ -529,8 +622,8 @@ Qed.
 Lemma pending_blocks : forall evs s n k rk,
   s_id s = Some n -> n <> 0 -> no_raw evs ->
   nth_error (trace s evs) k = Some rk -> writes_testreq rk = true ->
-  exists j rj ta v, (j < k)%nat /\ nth_error (trace s evs) j = Some rj
-                    /\ r_ev rj = Recv ta (MHeartbeat (Some v)) /\ parse_id v = n.
+  exists j rj ta da v, (j < k)%nat /\ nth_error (trace s evs) j = Some rj
+                    /\ r_ev rj = Recv ta da (MHeartbeat (Some v)) /\ parse_id v = n.
 Proof.
   induction evs as [|e evs IH]; intros s n k rk Hi Hn Hr Hk W; [destruct k; discriminate Hk|].
   inversion Hr as [|? ? Hre Hr']; subst.
@@ -539,11 +632,11 @@ Proof.
   destruct k as [|k].
   - cbn in Hk. inversion Hk; subst rk. unfold writes_testreq in W. cbn in W. congruence.
   - cbn [nth_error] in Hk.
-    destruct Hnext as [Hsame | [Hdead | (ta & v & He & Hp)]].
-    + destruct (IH s' n k rk Hsame Hn Hr' Hk W) as (j & rj & ta & v & Hj & Hnj & Hev & Hp).
-      exists (S j), rj, ta, v. repeat split; try assumption. lia.
+    destruct Hnext as [Hsame | [Hdead | (ta & da & v & He & Hp)]].
+    + destruct (IH s' n k rk Hsame Hn Hr' Hk W) as (j & rj & ta & da & v & Hj & Hnj & Hev & Hp).
+      exists (S j), rj, ta, da, v. repeat split; try assumption. lia.
     + pose proof (dead_silent evs s' rk Hdead (nth_error_In _ _ Hk)). congruence.
-    + exists 0%nat, (mkRow e o s'), ta, v. repeat split; try assumption. lia.
+    + exists 0%nat, (mkRow e o s'), ta, da, v. repeat split; try assumption. lia.
 Qed.
 
 Lemma single_outstanding : forall evs s i k ri rk,
@@ -551,8 +644,8 @@ Lemma single_outstanding : forall evs s i k ri rk,
   (i < k)%nat ->
   nth_error (trace s evs) i = Some ri -> nth_error (trace s evs) k = Some rk ->
   writes_testreq ri = true -> writes_testreq rk = true ->
-  exists j rj ta v, (i < j < k)%nat /\ nth_error (trace s evs) j = Some rj
-                    /\ r_ev rj = Recv ta (MHeartbeat (Some v))
+  exists j rj ta da v, (i < j < k)%nat /\ nth_error (trace s evs) j = Some rj
+                    /\ r_ev rj = Recv ta da (MHeartbeat (Some v))
                     /\ parse_id v = ev_time (r_ev ri) / 1000.
 Proof.
   induction evs as [|e evs IH]; intros s i k ri rk Hid Hr Hti Hik Hi Hk Wi Wk; [destruct i; discriminate Hi|].
@@ -563,64 +656,224 @@ Proof.
   - cbn in Hi. inversion Hi; subst ri. cbn [r_ev]. unfold writes_testreq in Wi. cbn [r_out] in Wi.
     destruct (probe_step s e s' o Hre E Wi) as [[Hnew | Hdead] _].
     + assert (Hn : ev_time e / 1000 <> 0) by (pose proof (div1000_pos _ Ht); lia).
-      destruct (pending_blocks evs s' _ k rk Hnew Hn Hr' Hk Wk) as (j & rj & ta & v & Hj & Hnj & Hev & Hp).
-      exists (S j), rj, ta, v. repeat split; try assumption; lia.
+      destruct (pending_blocks evs s' _ k rk Hnew Hn Hr' Hk Wk) as (j & rj & ta & da & v & Hj & Hnj & Hev & Hp).
+      exists (S j), rj, ta, da, v. repeat split; try assumption; lia.
     + pose proof (dead_silent evs s' rk Hdead (nth_error_In _ _ Hk)). congruence.
   - cbn [nth_error] in Hi.
     pose proof (id_nonzero_step s e s' o Hid Ht E) as Hid'.
-    destruct (IH s' i k ri rk Hid' Hr' Hti' ltac:(lia) Hi Hk Wi Wk) as (j & rj & ta & v & Hj & Hnj & Hev & Hp).
-    exists (S j), rj, ta, v. repeat split; try assumption; lia.
+    destruct (IH s' i k ri rk Hid' Hr' Hti' ltac:(lia) Hi Hk Wi Wk) as (j & rj & ta & da & v & Hj & Hnj & Hev & Hp).
+    exists (S j), rj, ta, da, v. repeat split; try assumption; lia.
 Qed.
 
 (* ------------------------------------------------------------------ inbound TestRequest / Heartbeat *)
-Lemma recv_live_eq : forall now m s, live s ->
-  recv now m s =
-  let '(s1, o) :=
-    match m with
-    | MTestRequest rid => (s, [OWire KHeartbeat (Some (match rid with Some v => v | None => [48%N] end))])
-    | MHeartbeat rid =>
-        match s_id s, rid with
-        | Some n, Some v => if n =? parse_id v then (set_id s None, []) else disconnect s true
-        | _, _ => (s, [])
-        end
-    | MApp => (s, [])
-    end in (set_mlt s1 now, o).
+Lemma recv_live_eq : forall now m s, live s -> plain m = true ->
+  recv now 0 m s = let '(s1, o) := dispatch m s in (set_mlt s1 now, o).
 Proof.
-  intros now m [stt hb mlt id conn] [Hc Hs]. cbn in Hc, Hs. subst.
-  unfold recv. cbn [s_conn s_state negb orb].
-  replace (ST_ACTIVE <=? ST_DISCONNECTED_BROKEN_CONN) with false by reflexivity.
-  rewrite Z.eqb_refl. reflexivity.
+  intros now m [stt hb mlt id conn g] [Hc Hs] Hp. cbn in Hc, Hs. subst.
+  destruct m as [r | r | | nw]; [| | | discriminate Hp].
+  - destruct id as [n|]; [destruct r as [v|] |]; try reflexivity.
+    unfold recv, dispatch, check_gap. cbn [s_conn s_state s_id negb orb andb session_up].
+    cbn. destruct (n =? parse_id v); reflexivity.
+  - reflexivity.
+  - reflexivity.
 Qed.
 
 Lemma testreq_answered : forall now rid s, live s ->
-  recv now (MTestRequest rid) s =
+  recv now 0 (MTestRequest rid) s =
   (set_mlt s now, [OWire KHeartbeat (Some (match rid with Some v => v | None => [48%N] end))]).
-Proof. intros now rid s L. rewrite recv_live_eq by assumption. reflexivity. Qed.
+Proof. intros now rid s L. rewrite recv_live_eq by (assumption || reflexivity). reflexivity. Qed.
 
 Lemma wrong_id_logout : forall now v s n, live s -> s_id s = Some n -> parse_id v <> n ->
-  recv now (MHeartbeat (Some v)) s =
+  recv now 0 (MHeartbeat (Some v)) s =
   (set_mlt (dead_st (s_hb s)) now, [OWire KLogout None; ODisconnect]).
 Proof.
-  intros now v s n L Hi Hne. rewrite recv_live_eq by assumption. rewrite Hi.
+  intros now v s n L Hi Hne. rewrite recv_live_eq by (assumption || reflexivity). cbn [dispatch]. rewrite Hi.
   replace (n =? parse_id v) with false by (symmetry; apply Z.eqb_neq; congruence).
   destruct L as [Hc Hs]. unfold disconnect. rewrite Hs. reflexivity.
 Qed.
 
 Lemma matching_id_clears : forall now v s, live s -> s_id s = Some (parse_id v) ->
-  recv now (MHeartbeat (Some v)) s = (set_mlt (set_id s None) now, []).
+  recv now 0 (MHeartbeat (Some v)) s = (set_mlt (set_id s None) now, []).
 Proof.
-  intros now v s L Hi. rewrite recv_live_eq by assumption. rewrite Hi, Z.eqb_refl. reflexivity.
+  intros now v s L Hi. rewrite recv_live_eq by (assumption || reflexivity). cbn [dispatch]. rewrite Hi, Z.eqb_refl. reflexivity.
 Qed.
 
 Lemma heartbeat_without_id_ignored : forall now s, live s ->
-  recv now (MHeartbeat None) s = (set_mlt s now, []).
+  recv now 0 (MHeartbeat None) s = (set_mlt s now, []).
 Proof.
-  intros now s L. rewrite recv_live_eq by assumption. destruct (s_id s); reflexivity.
+  intros now s L. rewrite recv_live_eq by (assumption || reflexivity). cbn [dispatch]. destruct (s_id s); reflexivity.
 Qed.
 
 Lemma unsolicited_id_ignored : forall now v s, live s -> s_id s = None ->
-  recv now (MHeartbeat (Some v)) s = (set_mlt s now, []).
-Proof. intros now v s L Hi. rewrite recv_live_eq by assumption. rewrite Hi. reflexivity. Qed.
+  recv now 0 (MHeartbeat (Some v)) s = (set_mlt s now, []).
+Proof. intros now v s L Hi. rewrite recv_live_eq by (assumption || reflexivity). cbn [dispatch]. rewrite Hi. reflexivity. Qed.
+
+(* ------------------------------------------------------------------ heartbeat protocol behind a sequence gap *)
+Definition awaiting (s : st) : Prop := s_conn s = true /\ s_state s = ST_RESENDREQ_AWAITING.
+
+(* a message numbered above the expected number: a ResendRequest is sent once and the state becomes
+   RESENDREQ_AWAITING; the message is still dispatched; it is NOT finalized (last-message clock untouched) *)
+Lemma recv_behind_gap_active : forall now d m s, live s -> 0 < d -> plain m = true ->
+  recv now d m s =
+  let '(s1, o) := dispatch m (set_state s ST_RESENDREQ_AWAITING d) in (s1, OWire KResendRequest None :: o).
+Proof.
+  intros now d m [stt hb mlt id conn g] [Hc Hs] Hd Hp. cbn in Hc, Hs. subst.
+  unfold recv, check_gap, session_up. cbn [s_conn s_state negb orb].
+  replace (ST_ACTIVE <=? ST_DISCONNECTED_BROKEN_CONN) with false by reflexivity.
+  rewrite Z.eqb_refl. cbn [orb negb].
+  replace (d <? 0) with false by (symmetry; apply Z.ltb_ge; lia).
+  replace (0 <? d) with true by (symmetry; apply Z.ltb_lt; lia).
+  replace (ST_ACTIVE =? ST_RESENDREQ_AWAITING) with false by reflexivity.
+  destruct m as [r | r | | nw]; [| | | discriminate Hp];
+    destruct (dispatch _ _) as [s1 o1]; reflexivity.
+Qed.
+
+Lemma recv_behind_gap_awaiting : forall now d m s, awaiting s -> 0 < d -> plain m = true ->
+  recv now d m s = dispatch m s.
+Proof.
+  intros now d m [stt hb mlt id conn g] [Hc Hs] Hd Hp. cbn in Hc, Hs. subst.
+  unfold recv, check_gap, session_up. cbn [s_conn s_state negb orb].
+  replace (ST_RESENDREQ_AWAITING <=? ST_DISCONNECTED_BROKEN_CONN) with false by reflexivity.
+  rewrite Z.eqb_refl. rewrite orb_true_r. cbn [orb negb].
+  replace (d <? 0) with false by (symmetry; apply Z.ltb_ge; lia).
+  replace (0 <? d) with true by (symmetry; apply Z.ltb_lt; lia).
+  destruct m as [r | r | | nw]; [| | | discriminate Hp];
+    destruct (dispatch _ _) as [s1 o1]; reflexivity.
+Qed.
+
+(* C12_answer_behind_gap_counts: the matching Heartbeat clears the outstanding probe although it is numbered
+   above the expected number; the last-message clock is not refreshed *)
+Lemma answer_behind_gap_counts : forall now d v s, 0 < d -> s_id s = Some (parse_id v) ->
+  (live s -> recv now d (MHeartbeat (Some v)) s
+             = (set_id (set_state s ST_RESENDREQ_AWAITING d) None, [OWire KResendRequest None]))
+  /\ (awaiting s -> recv now d (MHeartbeat (Some v)) s = (set_id s None, [])).
+Proof.
+  intros now d v s Hd Hi. split; intro L.
+  - rewrite recv_behind_gap_active by (assumption || reflexivity).
+    cbn [dispatch set_state s_id]. rewrite Hi, Z.eqb_refl. reflexivity.
+  - rewrite recv_behind_gap_awaiting by (assumption || reflexivity).
+    cbn [dispatch]. rewrite Hi, Z.eqb_refl. reflexivity.
+Qed.
+
+Lemma testreq_behind_gap_answered : forall now d rid s, 0 < d ->
+  let hbt := OWire KHeartbeat (Some (match rid with Some v => v | None => [48%N] end)) in
+  (live s -> recv now d (MTestRequest rid) s
+             = (set_state s ST_RESENDREQ_AWAITING d, [OWire KResendRequest None; hbt]))
+  /\ (awaiting s -> recv now d (MTestRequest rid) s = (s, [hbt])).
+Proof.
+  intros now d rid s Hd hbt. split; intro L.
+  - rewrite recv_behind_gap_active by (assumption || reflexivity). reflexivity.
+  - rewrite recv_behind_gap_awaiting by (assumption || reflexivity). reflexivity.
+Qed.
+
+Lemma wrong_id_behind_gap_logout : forall now d v s n, 0 < d -> s_id s = Some n -> parse_id v <> n ->
+  (live s -> recv now d (MHeartbeat (Some v)) s
+             = (dead_st (s_hb s), [OWire KResendRequest None; OWire KLogout None; ODisconnect]))
+  /\ (awaiting s -> recv now d (MHeartbeat (Some v)) s = (dead_st (s_hb s), [OWire KLogout None; ODisconnect])).
+Proof.
+  intros now d v s n Hd Hi Hne. split; intro L.
+  - rewrite recv_behind_gap_active by (assumption || reflexivity).
+    cbn [dispatch set_state s_id]. rewrite Hi.
+    replace (n =? parse_id v) with false by (symmetry; apply Z.eqb_neq; congruence). reflexivity.
+  - rewrite recv_behind_gap_awaiting by (assumption || reflexivity).
+    cbn [dispatch]. rewrite Hi.
+    replace (n =? parse_id v) with false by (symmetry; apply Z.eqb_neq; congruence).
+    destruct L as [Hc Hs]. unfold disconnect. rewrite Hs. reflexivity.
+Qed.
+
+(* the gap is closed: an in-sequence message, or a gap fill, that reaches the number that opened the gap brings the
+   session back to ACTIVE; in-sequence messages are finalized (clock refreshed) also while the resend is awaited *)
+Lemma gap_closes : forall now m s, awaiting s -> plain m = true ->
+  (forall n v, s_id s = Some n -> m = MHeartbeat (Some v) -> n = parse_id v) ->
+  let '(s1, o) := dispatch m s in
+  recv now 0 m s =
+  ((if s_gap s <=? 0 then set_mlt (set_state s1 ST_ACTIVE 0) now
+    else set_mlt (set_state s1 ST_RESENDREQ_AWAITING (s_gap s - 1)) now), o).
+Proof.
+  intros now m [stt hb mlt id conn g] [Hc Hs] Hp Hm. cbn in Hc, Hs. subst.
+  assert (F : forall s1, s_state s1 = ST_RESENDREQ_AWAITING -> s_gap s1 = g ->
+              finalize now 1 s1 = if g <=? 0 then set_mlt (set_state s1 ST_ACTIVE 0) now
+                                  else set_mlt (set_state s1 ST_RESENDREQ_AWAITING (g - 1)) now).
+  { intros s1 H1 H2. unfold finalize. rewrite H1, H2, Z.eqb_refl. change (1 - 1) with 0.
+    destruct (g <=? 0); reflexivity. }
+  destruct m as [r | r | | nw]; [| | | discriminate Hp].
+  - destruct id as [n|]; [destruct r as [v|] |].
+    + specialize (Hm n v eq_refl eq_refl). subst n. cbn [dispatch s_id]. rewrite Z.eqb_refl.
+      cbn [s_gap]. rewrite <- F by reflexivity.
+      unfold recv, check_gap, dispatch, session_up. cbn. rewrite Z.eqb_refl. reflexivity.
+    + cbn [dispatch s_id s_gap]. rewrite <- F by reflexivity. reflexivity.
+    + cbn [dispatch s_id s_gap]. rewrite <- F by reflexivity. reflexivity.
+  - cbn [dispatch s_gap]. rewrite <- F by reflexivity. reflexivity.
+  - cbn [dispatch s_gap]. rewrite <- F by reflexivity. reflexivity.
+Qed.
+
+Lemma gap_fill_closes : forall now nw s, awaiting s -> 1 <= nw ->
+  recv now 0 (MGapFill nw) s =
+  ((if s_gap s <=? nw - 1 then set_mlt (set_state s ST_ACTIVE 0) now
+    else set_mlt (set_state s ST_RESENDREQ_AWAITING (s_gap s - nw)) now), []).
+Proof.
+  intros now nw [stt hb mlt id conn g] [Hc Hs] Hn. cbn in Hc, Hs. subst.
+  unfold recv, session_up. cbn [s_conn s_state negb orb].
+  replace (ST_RESENDREQ_AWAITING <=? ST_DISCONNECTED_BROKEN_CONN) with false by reflexivity.
+  rewrite Z.eqb_refl, orb_true_r. cbn [negb orb Z.ltb Z.compare Z.eqb].
+  replace (nw <? 1) with false by (symmetry; apply Z.ltb_ge; lia).
+  unfold finalize. cbn [s_state s_gap]. rewrite Z.eqb_refl.
+  destruct (g <=? nw - 1); reflexivity.
+Qed.
+
+(* the silence clock while a resend is awaited: traffic that is all behind the unfilled gap does not refresh it, no
+   TestRequest is written (the probe test applies to ACTIVE only), and as long as the clock is at most 2 hb s old
+   nothing happens ... *)
+Definition behind_gap_ev (hb t0 : Z) (e : ev) : Prop :=
+  match e with
+  | Tick t => t - t0 <= 2 * hb * 1000
+  | Recv _ d m => 0 < d /\ plain m = true
+  | _ => False
+  end.
+
+Lemma behind_gap_quiet : forall hb t0 evs s,
+  awaiting s -> s_hb s = hb -> s_id s = None -> s_mlt s = t0 ->
+  Forall (behind_gap_ev hb t0) evs ->
+  final s evs = s
+  /\ Forall (fun r => writes_testreq r = false /\ ~ In ODisconnect (r_out r)
+                      /\ (is_tick (r_ev r) = true -> r_out r = [])) (trace s evs).
+Proof.
+  intros hb t0 evs. induction evs as [|e evs IH]; intros s A Hh Hi Hm F; [split; [reflexivity | constructor]|].
+  apply Forall_cons_iff in F. destruct F as [He F'].
+  assert (E : exists o, step s e = (s, o) /\ existsb is_testreq o = false /\ ~ In ODisconnect o
+                        /\ (is_tick e = true -> o = [])).
+  { destruct e as [t | t d m | t | t rid]; cbn [behind_gap_ev] in He.
+    - exists []. cbn [step]. split; [| split; [reflexivity | split; [tauto | reflexivity]]].
+      destruct A as [Hc Hs]. destruct s as [stt h mlt id conn g]. cbn in Hc, Hs, Hi, Hh, Hm. subst stt h mlt id conn.
+      unfold tick. cbn [s_conn s_state s_hb s_mlt s_id negb].
+      replace (ST_RESENDREQ_AWAITING =? ST_ACTIVE) with false by reflexivity.
+      cbn [andb s_mlt s_hb s_id]. rewrite thr_dead_eq.
+      replace (2 * hb * 1000 <? t - t0) with false by (symmetry; apply Z.ltb_ge; lia).
+      rewrite andb_false_r. reflexivity.
+    - destruct He as [Hd Hp]. cbn [step]. rewrite recv_behind_gap_awaiting by assumption.
+      destruct m as [r | r | | nw]; [| | | discriminate Hp]; cbn [dispatch]; try rewrite Hi;
+        eexists; (split; [reflexivity|]); cbn; repeat split; try discriminate; intuition discriminate.
+    - destruct He.
+    - destruct He. }
+  destruct E as [o [E [W [D T]]]].
+  cbn [trace]. rewrite final_cons, E. cbn [fst].
+  destruct (IH s A Hh Hi Hm F') as [Fi Fo].
+  split; [exact Fi|]. constructor; [cbn; auto | exact Fo].
+Qed.
+
+(* ... and the first iteration that finds it older drops the peer - unprobed, whatever it sends behind the gap *)
+Lemma gap_timeout : forall now s,
+  awaiting s -> s_id s = None -> s_mlt s <> 0 -> 2 * s_hb s * 1000 < now - s_mlt s ->
+  tick now s = (dead_st (s_hb s), [ODisconnect]).
+Proof.
+  intros now [stt hb mlt id conn g] [Hc Hs] Hi Hm Hl. cbn [s_conn s_state s_hb s_mlt s_id] in Hc, Hs, Hi, Hm, Hl. subst.
+  unfold tick. cbn [s_conn s_state s_hb s_mlt s_id negb].
+  replace (ST_RESENDREQ_AWAITING =? ST_ACTIVE) with false by reflexivity.
+  cbn [andb s_mlt s_hb s_id]. rewrite thr_dead_eq.
+  replace (mlt =? 0) with false by (symmetry; apply Z.eqb_neq; assumption).
+  replace (2 * hb * 1000 <? now - mlt) with true by (symmetry; apply Z.ltb_lt; lia).
+  reflexivity.
+Qed.
 
 (* ------------------------------------------------------------------ small intervals, other states *)
 (* hb = 0: probe and disconnect in the same iteration whenever time.time() is not a whole second *)
@@ -628,7 +881,7 @@ Lemma hb0_immediate : forall now s t0,
   idle_at s 0 t0 -> 1000 <= now -> -1000 < now - t0 -> now mod 1000 <> 0 ->
   tick now s = (dead_st 0, [testreq_frame (now / 1000); ODisconnect]).
 Proof.
-  intros now s t0 (L & Hh & Hi & Hm) Hnow Hgt Hmod.
+  intros now s t0 (L & Hh & Hi & Hm & Hg) Hnow Hgt Hmod.
   rewrite tick_live; [| assumption | lia | congruence].
   unfold tick_spec. rewrite Hi, Hh, Hm.
   replace ((0 - 1) * 1000 <? now - t0) with true by (symmetry; apply Z.ltb_lt; lia).
@@ -646,7 +899,7 @@ Lemma nonactive_tick : forall now s,
   if negb (s_mlt s =? 0) && (2 * s_hb s * 1000 <? now - s_mlt s)
   then (dead_st (s_hb s), [ODisconnect]) else (s, []).
 Proof.
-  intros now [stt hb mlt id conn] Hc Hs Hb Hi. cbn in Hc, Hs, Hb, Hi. subst.
+  intros now [stt hb mlt id conn g] Hc Hs Hb Hi. cbn in Hc, Hs, Hb, Hi. subst.
   unfold tick. cbn [s_conn s_state s_hb s_mlt s_id negb].
   replace (stt =? ST_ACTIVE) with false by (symmetry; apply Z.eqb_neq; assumption).
   cbn [andb s_mlt s_hb]. rewrite thr_dead_eq.
@@ -659,7 +912,7 @@ Qed.
 Lemma epoch_spin : forall now s,
   live s -> s_id s = Some 0 -> (s_hb s - 1) * 1000 < now - s_mlt s -> tick now s = (s, [OSpin]).
 Proof.
-  intros now [stt hb mlt id conn] [Hc Hs] Hi Hf. cbn in Hc, Hs, Hi, Hf. subst.
+  intros now [stt hb mlt id conn g] [Hc Hs] Hi Hf. cbn in Hc, Hs, Hi, Hf. subst.
   unfold tick. cbn [s_conn s_state s_hb s_mlt s_id negb].
   rewrite Z.eqb_refl, thr_probe_eq. cbn [andb].
   replace ((hb - 1) * 1000 <? now - mlt) with true by (symmetry; apply Z.ltb_lt; lia).
@@ -682,9 +935,9 @@ Fixpoint merge_fuel (fuel : nat) (a b : list ev) : list ev :=
 Definition merge (a b : list ev) : list ev := merge_fuel (length a + length b) a b.
 
 Fixpoint app_msgs (t period : Z) (k : nat) : list ev :=
-  match k with O => [] | S k' => Recv t MApp :: app_msgs (t + period) period k' end.
+  match k with O => [] | S k' => Recv t 0 MApp :: app_msgs (t + period) period k' end.
 
-Definition active0 (hb t0 : Z) : st := mkSt ST_ACTIVE hb t0 None true.
+Definition active0 (hb t0 : Z) : st := mkSt ST_ACTIVE hb t0 None true 0.
 
 Fixpoint sortedb (evs : list ev) : bool :=
   match evs with
@@ -703,7 +956,7 @@ Qed.
 Fixpoint gap_le (G last : Z) (evs : list ev) : bool :=
   match evs with
   | [] => true
-  | Recv t _ :: r => (t - last <=? G) && gap_le G t r
+  | Recv t _ _ :: r => (t - last <=? G) && gap_le G t r
   | e :: r => (ev_time e - last <=? G) && gap_le G last r
   end.
 
@@ -718,7 +971,7 @@ Proof.
 Qed.
 
 Definition only_app (evs : list ev) : bool :=
-  forallb (fun e => match e with Tick _ | Recv _ MApp => true | _ => false end) evs.
+  forallb (fun e => match e with Tick _ | Recv _ 0 MApp => true | _ => false end) evs.
 
 (* D19, hb = 30: application traffic every 29.5 s, never a pause above one interval; the probe written at
    +29.25 s is never answered; the watchdog drops the session at +89.25 s *)
@@ -784,8 +1037,8 @@ Qed.
 (* a peer that answers: silent but for a Heartbeat echoing each probe 50 s after it (hb = 30, two probe cycles) *)
 Definition answering_evs : list ev :=
   merge (ticks 1000000250 170)
-        [Recv 1000079250 (MHeartbeat (Some [49;48;48;48;48;50;57]%N));
-         Recv 1000158250 (MHeartbeat (Some [49;48;48;48;49;48;57]%N))].
+        [Recv 1000079250 0 (MHeartbeat (Some [49;48;48;48;48;50;57]%N));
+         Recv 1000158250 0 (MHeartbeat (Some [49;48;48;48;49;48;57]%N))].
 
 Fixpoint answersb (hb : Z) (tr : list row) : bool :=
   match tr with
@@ -794,8 +1047,8 @@ Fixpoint answersb (hb : Z) (tr : list row) : bool :=
       match probe_row r with
       | Some t =>
           existsb (fun r' => match r_ev r' with
-                             | Recv ta (MHeartbeat (Some v)) =>
-                                 (parse_id v =? t / 1000) && (ta <=? (t / 1000 + 2 * hb) * 1000)
+                             | Recv ta da (MHeartbeat (Some v)) =>
+                                 (0 <=? da) && (parse_id v =? t / 1000) && (ta <=? (t / 1000 + 2 * hb) * 1000)
                              | _ => false end) rest
       | None => true
       end && answersb hb rest
@@ -807,9 +1060,10 @@ Proof.
   cbn [answersb] in H. apply andb_true_iff in H. destruct H as [A B]. split; [|auto].
   intros t Ht. rewrite Ht in A. apply existsb_exists in A. destruct A as [r' [Hin Hr']].
   exists r'. split; [assumption|].
-  destruct (r_ev r') as [| ta [[v|] | |] | |] eqn:Ev; try discriminate.
-  apply andb_true_iff in Hr'. destruct Hr' as [P Q]. bool_lia. exists ta, v.
-  split; [exact Ev|]. split; lia.
+  destruct (r_ev r') as [| ta da [[v|] | | |] | |] eqn:Ev; try discriminate.
+  apply andb_true_iff in Hr'. destruct Hr' as [P Q]. apply andb_true_iff in P. destruct P as [P0 P].
+  bool_lia. exists ta, da, v.
+  split; [exact Ev|]. repeat split; lia.
 Qed.
 
 Example live_peer_nonvacuous :
@@ -820,10 +1074,88 @@ Proof.
   assert (S : sorted answering_evs) by (apply sortedb_sorted; vm_compute; reflexivity).
   assert (A : answers 30 (trace (active0 30 1000000000) answering_evs)) by (apply answersb_ok; vm_compute; reflexivity).
   split; [exact S|]. split; [exact A|]. split; [vm_compute; reflexivity|].
-  apply (live_peer 30 answering_evs (active0 30 1000000000) 1000000000); [lia | repeat split; reflexivity | | right; split; assumption].
+  assert (Q : Forall inseq_ev answering_evs).
+  { apply Forall_forall. intros e He.
+    assert (F : forallb inseq_evb answering_evs = true) by (vm_compute; reflexivity).
+    rewrite forallb_forall in F. apply inseq_evb_ok. exact (F e He). }
+  apply (live_peer 30 answering_evs (active0 30 1000000000) 1000000000);
+    [lia | repeat split; reflexivity | | right; split; [assumption | split; assumption]].
   apply Forall_forall. intros e He.
   assert (F : forallb (fun e => 1000 <=? ev_time e) answering_evs = true) by (vm_compute; reflexivity).
   rewrite forallb_forall in F. specialize (F e He). lia.
+Qed.
+
+(* ------------------------------------------------------------------ witnesses with a sequence gap *)
+Fixpoint gap_okb (hb : Z) (s : st) (evs : list ev) : bool :=
+  match evs with
+  | [] => true
+  | e :: r =>
+      match e with
+      | Tick t => negb (s_conn s && (s_state s =? ST_RESENDREQ_AWAITING)) || (t - s_mlt s <=? 2 * hb * 1000)
+      | _ => true
+      end && gap_okb hb (fst (step s e)) r
+  end.
+
+Lemma gap_okb_ok : forall hb evs s, gap_okb hb s evs = true -> gap_ok hb s evs.
+Proof.
+  intros hb evs. induction evs as [|e evs IH]; intros s H; [exact I|].
+  cbn [gap_okb] in H. apply andb_true_iff in H. destruct H as [A B]. cbn [gap_ok]. split; [|auto].
+  destruct e; try exact I. intros Hc Hs. rewrite Hc, Hs, Z.eqb_refl in A. cbn [andb negb orb] in A. apply Z.leb_le in A. exact A.
+Qed.
+
+(* hb = 30: the probe written at +29.25 s is answered at +31 s by a Heartbeat numbered one above the expected
+   number (the message before it was lost); the peer gap-fills at +33 s; the second probe (+62.25 s) is answered in
+   sequence.  The answer behind the gap counts: the peer is never dropped. *)
+Definition gap_answer_evs : list ev :=
+  merge (ticks 1000000250 95)
+        [Recv 1000031000 1 (MHeartbeat (Some [49;48;48;48;48;50;57]%N));
+         Recv 1000033000 0 (MGapFill 2);
+         Recv 1000070000 0 (MHeartbeat (Some [49;48;48;48;48;54;50]%N))].
+
+Example answer_behind_gap_instance :
+  sorted gap_answer_evs /\ gap_ok 30 (active0 30 1000000000) gap_answer_evs
+  /\ answers 30 (trace (active0 30 1000000000) gap_answer_evs)
+  /\ (2 <= length (filter writes_testreq (trace (active0 30 1000000000) gap_answer_evs)))%nat
+  /\ Forall (fun r => ~ wd_disconnect r) (trace (active0 30 1000000000) gap_answer_evs).
+Proof.
+  assert (S : sorted gap_answer_evs) by (apply sortedb_sorted; vm_compute; reflexivity).
+  assert (G : gap_ok 30 (active0 30 1000000000) gap_answer_evs) by (apply gap_okb_ok; vm_compute; reflexivity).
+  assert (A : answers 30 (trace (active0 30 1000000000) gap_answer_evs)) by (apply answersb_ok; vm_compute; reflexivity).
+  split; [exact S|]. split; [exact G|]. split; [exact A|].
+  split; [vm_compute; repeat constructor|].
+  apply (live_peer_gaps 30 gap_answer_evs (active0 30 1000000000)); try assumption; try lia; try reflexivity.
+  - split; [reflexivity | intros _; reflexivity].
+  - apply Forall_forall. intros e He.
+    assert (F : forallb (fun e => 1000 <=? ev_time e) gap_answer_evs = true) by (vm_compute; reflexivity).
+    rewrite forallb_forall in F. specialize (F e He). lia.
+Qed.
+
+(* REFUTED: "a peer whose traffic is all behind an unfilled gap is probed and, if it answers, not dropped".
+   hb = 30, Heartbeats every 10 s from +5 s, all numbered above the expected number: the session waits for the
+   resend, the probe test does not apply outside ACTIVE, no TestRequest is ever written, and the peer is dropped at
+   +60.25 s, the first iteration that finds the last in-sequence message more than 2 hb s old. *)
+Fixpoint gap_msgs (t period d : Z) (k : nat) : list ev :=
+  match k with O => [] | S k' => Recv t d (MHeartbeat None) :: gap_msgs (t + period) period (d + 1) k' end.
+
+Definition unfilled_gap_evs : list ev := merge (ticks 1000000250 70) (gap_msgs 1000005000 10000 1 7).
+
+Definition behind_gapb (e : ev) : bool :=
+  match e with Tick _ => true | Recv _ d _ => 0 <? d | _ => false end.
+
+Lemma unfilled_gap_refuted :
+  exists evs,
+    sorted evs /\ forallb behind_gapb evs = true /\ gap_le 10000 1000000000 evs = true
+    /\ answers 30 (trace (active0 30 1000000000) evs)
+    /\ forallb (fun r => negb (writes_testreq r)) (trace (active0 30 1000000000) evs) = true
+    /\ exists r, In r (trace (active0 30 1000000000) evs) /\ wd_disconnect r.
+Proof.
+  exists unfilled_gap_evs.
+  split; [apply sortedb_sorted; vm_compute; reflexivity|].
+  split; [vm_compute; reflexivity|]. split; [vm_compute; reflexivity|].
+  split; [apply answersb_ok; vm_compute; reflexivity|].
+  split; [vm_compute; reflexivity|].
+  assert (H : existsb wd_disconnectb (trace (active0 30 1000000000) unfilled_gap_evs) = true) by (vm_compute; reflexivity).
+  apply existsb_exists in H. destruct H as [r [Hin Hr]]. exists r. split; [assumption | apply wd_disconnectb_ok; assumption].
 Qed.
 
 (* an answer within 2 hb - 1 s of the moment the probe was written meets the absolute deadline id + 2 hb s *)
